@@ -364,6 +364,22 @@ func (d *Dict) Tree(r *rand.Rand, app uint32, o *Opts) []*refcodec.Node {
 func (d *Dict) unknown(r *rand.Rand, app uint32, o *Opts) *refcodec.Node {
 	for {
 		n := &refcodec.Node{Kind: refcodec.Unknown}
+		if vis := d.Visible(app); r.IntN(4) == 0 && len(vis) > 0 {
+			// a code the dictionary defines, under a vendor id it does not define it
+			// for (another vendor, or none): opaque data, not that definition's type
+			def := vis[r.IntN(len(vis))]
+			n.Code = def.Code
+			n.Flags = uint8(r.Uint32()) & 0x60
+			if def.Vendor == 0 || r.IntN(2) == 0 {
+				n.Flags |= refcodec.AVPFlagV
+				n.Vendor = []uint32{def.Vendor + 1, 99999, 9, 10415, 193}[r.IntN(5)]
+			}
+			if _, ok := d.Ix.FindAVP(app, n.Code, n.Vendor); ok || n.Vendor == refdict.AnyVendor {
+				continue
+			}
+			n.B = randBytes(r, strLen(r, o.BigStrings))
+			return n
+		}
 		switch r.IntN(3) {
 		case 0:
 			n.Code = 0x00F00000 + uint32(r.IntN(1<<16))
